@@ -23,7 +23,16 @@ observable inside a compute_batch_gradients call (k >= 1) its rows must be the r
 
 Histories: fit is also called TWICE on one state - with another data object, and with the SAME array / tensor /
 list / bases object refilled in place between the calls; the second call is judged against the data as it is at
-that call (stale caches of the converted data or of z_samples).  Large data sets (N = 20011 / 150001, batch 4096
+that call (stale caches of the converted data or of z_samples); a first run ABORTED by an exception (raised by the caller's
+callback at epoch start / batch end / epoch end as RuntimeError or KeyboardInterrupt, by the caller's optimizer constructor, or
+by the library itself for bases without a reference row; caught by the caller) followed by an ordinary fit on other rows of the
+same / another length.  Call forms: data as tensor (double / float32 / int64 / strided / column-major), numpy (float / int /
+reversed rows / flipped columns / Fortran order / every second row / read-only), list of lists, list of 1-D arrays, and read
+back from text files by the library's loader (also one-row and one-column files: nv = 1, 2); bases as fresh array or as a view;
+integer arguments (batch sizes, k, epochs) as np.uint8 / int8 / uint16 / int32 / int64 / 0-d arrays with enough batches that a
+wrap of num_batches * neg_batch_size or batch_start + pos_batch_size would show; callbacks omitted / [] / None (epochs cut by
+the known number of batches ceil(N / b), the requested number of epochs assumed); user basis letters H, K defined in the state's
+unitary_dict (reference rows are exactly the all-Z rows; rows rotated only by user letters are present).  Large data sets (N = 20011 / 150001, batch 4096
 or the default 100, each sample row a function of its basis row) are oracle-only (no model call above N = 50)."""
 import copy, inspect, itertools, time
 from collections import Counter
@@ -37,8 +46,13 @@ RULE = ("all (N, pos_batch_size) with 1 <= N <= 7 (quick) / 9 (thorough), 1 <= p
         "disjoint sample rows. A case is one fit run; non-trivial := N >= 3, >= 2 batches, >= 2 distinct rows "
         "and a duplicated row present. Always first: two-fit histories on one state (other object / same data and-or bases "
         "object refilled in place) and large oracle-only runs (N = 20011, 150001; batch 4096 / default 100); histories also "
-        "in the random stream; k in {1,2,3}; chain starts observed through rbm_am.gibbs_steps / sample_h_given_v")
-ASSUMPTIONS = ["torch.randperm(N) returns a permutation of 0..N-1 and torch.randint(M, size=(k,)) returns k indices < M "
+        "in the random stream; k in {1,2,3}; chain starts observed through rbm_am.gibbs_steps / sample_h_given_v. "
+        "Also always first and rotating in the stream: first run aborted by an exception (callback / optimizer constructor / no reference row) then an "
+        "ordinary fit on other rows; callbacks omitted / [] / None; data as numpy views (negative strides, Fortran, every second row, read-only), "
+        "tensor views, list of arrays, through load_data / load_data_DM files (nv 1..3, N = 1 included); bases as views; batch sizes / k / epochs "
+        "as np.uint8, int8, uint16, int32, int64, 0-d arrays (N up to 300 resp. 150001 so that a wrap shows); basis letters X Y Z H K with a unitary_dict")
+ASSUMPTIONS = ["runs without callbacks: the number of epochs is taken as requested (how many epochs a run has is C12), each with ceil(N / b) batches",
+               "torch.randperm(N) returns a permutation of 0..N-1 and torch.randint(M, size=(k,)) returns k indices < M "
                "(checked on every captured call)",
                "clause 'training never modifies the caller's data or bases' is correspondence-tested only (byte comparison "
                "before/after fit); the Coq model has no mutable objects"]
@@ -48,27 +62,48 @@ ALL_ROWS = [tuple(float(b) for b in r) for r in itertools.product([0, 1], repeat
 
 
 # ----------------------------------------------------------------------------- case generation
-def gen_case(ctx, kind, N, pos_bs, negmode, form, epochs):
+EXTRA_LETTERS = "HK"            # user-defined bases beyond X / Y / Z (the state's unitary_dict defines them)
+INT_KINDS = ["uint8", "int8", "uint16", "int32", "int64", "arr0d", "arr0d_uint8"]
+
+
+class HarnessAbort(RuntimeError):
+    """raised by the harness's own callback to abort a run"""
+
+
+class HarnessInterrupt(KeyboardInterrupt):
+    """... the same as a Ctrl-C"""
+
+
+def all_rows(nv):
+    return ALL_ROWS if nv == NV else [tuple(float(b) for b in r) for r in itertools.product([0, 1], repeat=nv)]
+
+
+def gen_case(ctx, kind, N, pos_bs, negmode, form, epochs, nv=NV, letters="XYZ"):
     rng = ctx.rng
     with_bases = kind != "positive"
-    order = list(rng.permutation(len(ALL_ROWS)))
+    AR = all_rows(nv)
+    order = list(rng.permutation(len(AR)))
     if not with_bases:
-        allowed = [ALL_ROWS[i] for i in order[:4]]            # strict subset: a foreign negative row is detectable
+        allowed = [AR[i] for i in order[:max(1, len(AR) // 2)]]   # strict subset: a foreign negative row is detectable
         rows = [allowed[int(rng.integers(0, len(allowed)))] for _ in range(N)]
         bases = None
     else:
-        zrows = [ALL_ROWS[i] for i in order[:2]]
-        orows = [ALL_ROWS[i] for i in order[2:5]]
+        nzr = max(1, len(AR) // 4)
+        zrows = [AR[i] for i in order[:nzr]]
+        orows = [AR[i] for i in order[nzr:nzr + 3]]
         nz = 1 if N == 1 else int(rng.integers(1, N))         # >= 1 all-Z row, >= 1 other row when N >= 2
         pairs = []
         for _ in range(nz):
-            pairs.append((zrows[int(rng.integers(0, 2))], "Z" * NV))
-        for _ in range(N - nz):
+            pairs.append((zrows[int(rng.integers(0, len(zrows)))], "Z" * nv))
+        extra = [c for c in letters if c not in "XYZ"]
+        for t in range(N - nz):
+            # with user letters: every second non-reference row is rotated ONLY by user letters (no X, no Y in it)
+            alpha = (["Z"] + extra) if (extra and t % 2 == 0) else list(letters)
             while True:
-                b = "".join(rng.choice(list("XYZ"), size=NV))
-                if b != "Z" * NV:
+                b = "".join(rng.choice(alpha, size=nv))
+                if b != "Z" * nv:
                     break
-            pairs.append((orows[int(rng.integers(0, 3))], b))
+            pairs.append((orows[int(rng.integers(0, len(orows)))], b))
         pairs = [pairs[i] for i in rng.permutation(N)]
         rows = [p[0] for p in pairs]
         bases = [p[1] for p in pairs]
@@ -79,11 +114,11 @@ def gen_case(ctx, kind, N, pos_bs, negmode, form, epochs):
         if bases is not None:
             bases[j] = bases[i]
             k = [t for t in range(N) if t not in (i, j)][0]
-            nzc = sum(b == "Z" * NV for b in bases)
+            nzc = sum(b == "Z" * nv for b in bases)
             if nzc == 0:                                       # the duplication removed the last all-Z row
-                rows[k], bases[k] = zrows[0], "Z" * NV
+                rows[k], bases[k] = zrows[0], "Z" * nv
             elif nzc == N:                                     # ... or the last other row
-                rows[k], bases[k] = orows[0], "XZY"[:NV]
+                rows[k], bases[k] = orows[0], ((letters[-1] if letters != "XYZ" else "X") + "ZY")[:nv]
     if negmode == "default":
         neg_arg = None
     elif negmode == "zero":
@@ -93,10 +128,15 @@ def gen_case(ctx, kind, N, pos_bs, negmode, form, epochs):
     else:
         choices = [x for x in range(1, N + 3) if x != pos_bs]
         neg_arg = int(choices[int(rng.integers(0, len(choices)))])
-    return {"kind": kind, "N": N, "pos_bs": pos_bs, "negmode": negmode, "neg_arg": neg_arg, "form": form,
+    case = {"kind": kind, "N": N, "pos_bs": pos_bs, "negmode": negmode, "neg_arg": neg_arg, "form": form,
             "epochs": epochs, "rows": [list(r) for r in rows], "bases": bases,
             "nh": int(rng.integers(1, 3)), "tseed": int(rng.integers(0, 2 ** 31 - 1)),
             "k": int(rng.choice([1, 1, 2, 3]))}
+    if nv != NV:
+        case["nv"] = nv
+    if letters != "XYZ" and with_bases:
+        case["letters"] = letters
+    return case
 
 
 def large_case(ctx, kind, N, pos_bs, neg_arg, form, pos_default=False, stub=False):
@@ -125,13 +165,53 @@ def case_rows(case):
     return allowed[g.integers(0, 4, size=rc["N"])].tolist(), None
 
 
+def user_unitaries():
+    """Two further one-qubit bases: H = Hadamard, K = (1 + i X)/sqrt 2 (both unitary)."""
+    import torch
+    h = 2 ** -0.5
+    return {"H": torch.tensor([[[h, h], [h, -h]], [[0., 0.], [0., 0.]]], dtype=torch.double),
+            "K": torch.tensor([[[h, 0.], [0., h]], [[0., h], [h, 0.]]], dtype=torch.double)}
+
+
 def make_state(case):
     from qucumber.nn_states import PositiveWaveFunction, ComplexWaveFunction, DensityMatrix
+    from qucumber.utils import unitaries
+    nv = case.get("nv", NV)
+    kw = {}
+    if case.get("letters"):
+        uu = user_unitaries()
+        kw["unitary_dict"] = unitaries.create_dict(**{c: uu[c] for c in case["letters"] if c in uu})
     if case["kind"] == "positive":
-        return PositiveWaveFunction(NV, case["nh"], gpu=False)
+        return PositiveWaveFunction(nv, case["nh"], gpu=False)
     if case["kind"] == "complex":
-        return ComplexWaveFunction(NV, case["nh"], gpu=False)
-    return DensityMatrix(NV, case["nh"], 1, gpu=False)
+        return ComplexWaveFunction(nv, case["nh"], gpu=False, **kw)
+    return DensityMatrix(nv, case["nh"], 1, gpu=False, **kw)
+
+
+_SCRATCH = [None]
+_FILE_COUNTER = itertools.count()
+
+
+def load_through_files(case):
+    """The documented route: samples (and bases) written to text files and read back by the library's loader."""
+    import os
+    from qucumber.utils.data import load_data, load_data_DM
+    d = _SCRATCH[0]
+    tag = "%d_%d" % (os.getpid(), next(_FILE_COUNTER))
+    ps, pb = os.path.join(d, "c07_samples_%s.txt" % tag), os.path.join(d, "c07_bases_%s.txt" % tag)
+    with open(ps, "w") as f:
+        f.write("".join(" ".join(str(int(x)) for x in r) + "\n" for r in case["rows"]))
+    try:
+        if case["bases"] is None:
+            return load_data(ps)[0], None
+        with open(pb, "w") as f:
+            f.write("".join(" ".join(b) + "\n" for b in case["bases"]))
+        out = (load_data_DM if case["kind"] == "dm" else load_data)(ps, tr_bases_path=pb)
+        return out[0], out[1]
+    finally:
+        for q in (ps, pb):
+            if os.path.exists(q):
+                os.remove(q)
 
 
 def make_data_object(case):
@@ -143,11 +223,57 @@ def make_data_object(case):
         return torch.tensor(rows, dtype=torch.float32)
     if form == "tensor_long":
         return torch.tensor(rows, dtype=torch.double).to(torch.long)
+    if form == "tensor_stride2":                                # every second row of a larger tensor
+        big = torch.full((2 * len(rows), len(rows[0])), 0.5, dtype=torch.double)
+        big[::2] = torch.tensor(rows, dtype=torch.double)
+        return big[::2]
+    if form == "tensor_t":                                      # column-major tensor (transposed view)
+        return torch.tensor(rows, dtype=torch.double).t().contiguous().t()
     if form == "numpy":
         return np.array(rows, dtype=np.float64)
     if form == "numpy_int":
         return np.array(rows, dtype=np.int64)
+    a = np.array(rows, dtype=np.float64)
+    if form == "numpy_reversed":                                # views with negative strides
+        return a[::-1].copy()[::-1]
+    if form == "numpy_flipped":
+        return a[:, ::-1].copy()[:, ::-1]
+    if form == "numpy_fortran":
+        return np.asfortranarray(a)
+    if form == "numpy_stride2":
+        big = np.full((2 * a.shape[0], a.shape[1]), 0.5); big[::2] = a
+        return big[::2]
+    if form == "numpy_readonly":
+        a.setflags(write=False)
+        return a
+    if form == "list_of_arrays":
+        return [np.array(r, dtype=np.float64) for r in rows]
     return [[float(x) for x in r] for r in rows]                # plain list of lists
+
+
+def make_bases_object(case):
+    b = np.array([list(x) for x in case["bases"]])
+    bf = case.get("bases_form")
+    if bf == "reversed":
+        return b[::-1].copy()[::-1]
+    if bf == "fortran":
+        return np.asfortranarray(b)
+    if bf == "stride2":
+        big = np.full((2 * b.shape[0], b.shape[1]), "Q"); big[::2] = b
+        return big[::2]
+    if bf == "readonly":
+        b.setflags(write=False)
+    return b
+
+
+def as_int(v, kind):
+    if v is None or kind is None:
+        return v
+    if kind == "arr0d":
+        return np.array(int(v))
+    if kind == "arr0d_uint8":
+        return np.array(int(v), dtype=np.uint8)
+    return np.dtype(kind).type(int(v))
 
 
 def snapshot(obj):
@@ -156,7 +282,7 @@ def snapshot(obj):
         return ("tensor", str(obj.dtype), tuple(obj.shape), obj.clone().numpy().tobytes())
     if isinstance(obj, np.ndarray):
         return ("ndarray", str(obj.dtype), tuple(obj.shape), obj.tobytes())
-    return ("list", copy.deepcopy(obj))
+    return ("list", [[float(x) for x in r] for r in obj], [type(r).__name__ for r in obj])
 
 
 # ----------------------------------------------------------------------------- instrumented fit
@@ -166,7 +292,12 @@ def refill(obj, rows_or_bases):
     if isinstance(obj, torch.Tensor):
         obj.copy_(torch.tensor(rows_or_bases, dtype=torch.double).to(obj.dtype))
     elif isinstance(obj, np.ndarray):
+        ro = not obj.flags.writeable
+        if ro:
+            obj.setflags(write=True)                           # the caller's own array: the caller may write to it
         obj[:] = np.array(rows_or_bases, dtype=obj.dtype) if obj.dtype.kind != "U" else np.array([list(b) for b in rows_or_bases])
+        if ro:
+            obj.setflags(write=False)
     else:
         for i, r in enumerate(rows_or_bases):
             obj[i][:] = [float(x) for x in r]
@@ -182,28 +313,43 @@ def run_fit(case, session=None, reuse="other"):
         torch.manual_seed(case["tseed"])
         session = {"state": make_state(case), "data_obj": None, "bases_obj": None}
     state = session["state"]
+    try:
+        loaded = load_through_files(case) if case["form"] == "loaded" else None
+    except Exception as e:                                     # the library's loader raised on a well-formed file
+        return [], None, None, (None, None), e, session
     if session["data_obj"] is not None and reuse in ("same_both", "same_data"):
         data_obj = session["data_obj"]
         refill(data_obj, case["rows"])
     else:
-        data_obj = make_data_object(case)
+        data_obj = loaded[0] if loaded else make_data_object(case)
     if case["bases"] is None:
         bases_obj = None
     elif session["bases_obj"] is not None and reuse in ("same_both", "same_bases"):
         bases_obj = session["bases_obj"]
         refill(bases_obj, case["bases"])
     else:
-        bases_obj = np.array([list(b) for b in case["bases"]])
+        bases_obj = loaded[1] if loaded else make_bases_object(case)
     session["data_obj"], session["bases_obj"] = data_obj, bases_obj
     before = (snapshot(data_obj), None if bases_obj is None else snapshot(bases_obj))
     log = []
 
+    abort = case.get("abort")
+
+    def maybe_abort(hook, epoch):
+        if abort and abort["hook"] == hook and epoch == abort["epoch"]:
+            raise (HarnessInterrupt if abort.get("exc") == "KeyboardInterrupt" else HarnessAbort)("raised by the caller's callback")
+
     class Marks(CallbackBase):
         def on_epoch_start(self, nn_state, epoch):
             log.append(("epoch_start", epoch))
+            maybe_abort("on_epoch_start", epoch)
+
+        def on_batch_end(self, nn_state, epoch, batch):
+            maybe_abort("on_batch_end", epoch)
 
         def on_epoch_end(self, nn_state, epoch):
             log.append(("epoch_end", epoch))
+            maybe_abort("on_epoch_end", epoch)
 
     orig_cbg = state.compute_batch_gradients
     try:
@@ -213,10 +359,13 @@ def run_fit(case, session=None, reuse="other"):
 
     def norm(b):
         if isinstance(b, torch.Tensor):
-            return b.detach().clone().tolist()
+            b = b.detach().clone()
+            if b.dim() != 2:                                    # not a batch of rows: keep it comparable (the oracle will object)
+                b = b.reshape(-1, 1) if b.dim() < 2 else b.reshape(b.shape[0], -1)
+            return b.tolist()
         if b is None:
             return None
-        return ["".join(r) for r in np.asarray(b).tolist()]
+        return ["".join(r) for r in np.asarray(b).reshape(len(b), -1).tolist()] if np.ndim(b) >= 1 else [str(b)]
 
     cur_starts = [None]          # chain starts observed inside the compute_batch_gradients call in progress
     depth = [0]
@@ -308,15 +457,33 @@ def run_fit(case, session=None, reuse="other"):
     torch.randperm, torch.randint = rec_perm, rec_int
     err = None
     try:
-        kw = dict(epochs=case["epochs"], neg_batch_size=case["neg_arg"], k=case.get("k", 1), lr=1e-6, progbar=False, callbacks=[Marks()])
+        ik = case.get("int_kind")                              # integer arguments as narrow numpy integers / 0-d arrays
+        kw = dict(epochs=as_int(case["epochs"], ik), neg_batch_size=as_int(case["neg_arg"], ik), k=as_int(case.get("k", 1), ik),
+                  lr=1e-6, progbar=False, callbacks=[Marks()])
+        if case.get("no_cb") == "omitted":
+            del kw["callbacks"]                                 # nobody marks the epochs
+        elif case.get("no_cb") == "empty_list":
+            kw["callbacks"] = []
+        elif case.get("no_cb") == "none":
+            kw["callbacks"] = None
+        if abort and abort["hook"] == "optimizer_raises":      # the run dies inside fit, before the first epoch
+
+            def failing_optimizer(*a, **k):
+                raise HarnessAbort("raised by the caller's optimizer constructor")
+            kw["optimizer"] = failing_optimizer
         if not case.get("pos_default"):
-            kw["pos_batch_size"] = case["pos_bs"]               # else: the documented default (100)
+            kw["pos_batch_size"] = as_int(case["pos_bs"], ik)  # else: the documented default (100)
         if case["neg_arg"] is None and case.get("neg_omitted"):
             del kw["neg_batch_size"]
         if bases_obj is not None:
             kw["input_bases"] = bases_obj
-        state.fit(data_obj, **kw)
-    except Exception as e:                                     # reported by the caller
+        import warnings
+        with warnings.catch_warnings():
+            warnings.simplefilter("ignore")
+            state.fit(data_obj, **kw)
+    except (Exception, KeyboardInterrupt) as e:                # reported by the caller
+        if isinstance(e, KeyboardInterrupt) and not isinstance(e, HarnessInterrupt):
+            raise
         err = e
     finally:
         torch.randperm, torch.randint = orig_perm, orig_int
@@ -326,11 +493,12 @@ def run_fit(case, session=None, reuse="other"):
     return log, data_obj, bases_obj, before, err, session
 
 
-def split_epochs(log, failed=False):
+def split_epochs(log, failed=False, chunk=None):
     """One record per epoch (delimited by the user callback's on_epoch_start / on_epoch_end):
-    {"ep", "batches", "perms", "ints"}.  The random calls attributed to an epoch are those made since the
+    {"ep", "batches", "perms", "ints", "ended"}.  The random calls attributed to an epoch are those made since the
     last batch of the previous epoch and before this epoch's FIRST batch, wherever they sit relative to
-    on_epoch_start (the property does not fix that order)."""
+    on_epoch_start (the property does not fix that order).  chunk = n: a run WITHOUT callbacks, epochs are cut
+    after every n batches (n = ceil(N / batch size))."""
     epochs, cur, pend_p, pend_i = [], None, [], []
     for ev in log:
         if ev[0] == "randperm":
@@ -338,20 +506,25 @@ def split_epochs(log, failed=False):
         elif ev[0] == "randint":
             pend_i.append(ev)
         elif ev[0] == "epoch_start":
-            cur = {"ep": ev[1], "perms": [], "ints": [], "batches": []}
+            cur = {"ep": ev[1], "perms": [], "ints": [], "batches": [], "ended": False}
             epochs.append(cur)
         elif ev[0] == "batch":
+            if chunk is not None and (cur is None or len(cur["batches"]) >= chunk):
+                cur = {"ep": len(epochs) + 1, "perms": [], "ints": [], "batches": [], "ended": True}
+                epochs.append(cur)
             if cur is None:                                    # batch outside the epoch marks
-                cur = {"ep": "?", "perms": [], "ints": [], "batches": []}
+                cur = {"ep": "?", "perms": [], "ints": [], "batches": [], "ended": False}
                 epochs.append(cur)
             if not cur["batches"]:
                 cur["perms"], cur["ints"], pend_p, pend_i = pend_p, pend_i, [], []
             cur["batches"].append(ev[1] + [ev[2]])             # [samples, neg, bases, chain starts]
         elif ev[0] == "epoch_end":
+            if cur is not None:
+                cur["ended"] = True
             cur = None
     if failed and (pend_p or pend_i):                          # raised before the first batch of an epoch
         if cur is None or cur["batches"]:
-            cur = {"ep": "?", "perms": [], "ints": [], "batches": []}
+            cur = {"ep": "?", "perms": [], "ints": [], "batches": [], "ended": False}
             epochs.append(cur)
         cur["perms"], cur["ints"] = pend_p, pend_i
     return epochs
@@ -365,6 +538,7 @@ def codes(bases):
 def one_case(ctx, case, correspondence=True, session=None, reuse="other", first=None):
     """One fit run (optionally the second one on the state of `session`) judged by the oracle and compared
     with the model.  Returns the session so that the same state / objects can be trained again."""
+    _SCRATCH[0] = ctx.scratch
     rows_l, bases = case_rows(case)
     full = dict(case, rows=rows_l, bases=bases)
     rows = [tuple(r) for r in rows_l]
@@ -381,6 +555,7 @@ def one_case(ctx, case, correspondence=True, session=None, reuse="other", first=
     distinct = len(set(zip(rows, bases)) if bases else set(rows))
     nontriv = N >= 3 and nb >= 2 and distinct >= 2 and distinct < N
     desc = {k: case.get(k) for k in ("kind", "N", "pos_bs", "neg_arg", "form", "tseed", "pos_default", "neg_omitted", "k", "recipe")}
+    desc.update({k: case[k] for k in ("nv", "letters", "int_kind", "no_cb", "abort", "bases_form") if case.get(k) is not None})
     if not large:
         desc.update(rows=case["rows"], bases=case["bases"])
     if first is not None:
@@ -389,6 +564,18 @@ def one_case(ctx, case, correspondence=True, session=None, reuse="other", first=
     ctx.count("kind:" + case["kind"]); ctx.count("neg:" + case["negmode"]); ctx.count("form:" + case["form"])
     ctx.count("shape:" + ("N<b" if N < pos_bs else "N=m*b" if N % pos_bs == 0 else "N=m*b+r"))
     ctx.count("k:%d" % case.get("k", 1))
+    ctx.count("integer_arguments:" + str(case.get("int_kind") or "python_int"))
+    ctx.count("callbacks:" + str(case.get("no_cb") or "marks"))
+    ctx.count("nv:%d" % case.get("nv", NV))
+    if bases is not None:
+        ctx.count("bases_form:" + str(case.get("bases_form") or "fresh_c_order"))
+        ctx.count("basis_letters:" + case.get("letters", "XYZ"))
+        if any(set(b) - set("XYZ") and not set(b) & set("XY") for b in bases):
+            ctx.count("has_row_rotated_only_by_user_letters")
+    if case.get("abort"):
+        ctx.count("first_run_aborted:%s:%s" % (case["abort"]["hook"], case["abort"].get("exc")))
+    if first is not None and first.get("abort"):
+        ctx.count("second_fit_after_aborted_run:" + ("same_N" if first["N"] == N else "other_N"))
     if large:
         ctx.count("large:N=%d" % N)
     if first is not None:
@@ -399,7 +586,23 @@ def one_case(ctx, case, correspondence=True, session=None, reuse="other", first=
         ctx.count("single_row_with_bases")
 
     log, data_obj, bases_obj, before, err, session = run_fit(full, session, reuse)
-    epochs = split_epochs(log, failed=err is not None)
+    aborted = isinstance(err, (HarnessAbort, HarnessInterrupt))
+    if err is not None and (case.get("abort") or {}).get("hook") == "no_reference_row":
+        aborted = True                     # no all-Z row: nothing to start the chains from; the library gives up (not a subject of the property)
+    epochs = split_epochs(log, failed=err is not None and not aborted, chunk=nb if case.get("no_cb") else None)
+    if aborted:
+        # the caller's own callback raised (and the caller caught it): the epochs completed before that are judged
+        err = None
+        epochs = [e for e in epochs if e["ended"]]
+        correspondence = False
+    elif case.get("abort"):
+        ctx.count("abort_hook_not_reached")
+    if case.get("no_cb") and err is None:
+        # a run without callbacks: nobody marks the epochs; the requested number of epochs, ceil(N / b) batches each
+        total = sum(1 for ev in log if ev[0] == "batch")
+        if not ctx.require("number of batches == ceil(N / batch size) in every epoch (run without callbacks)", total == case["epochs"] * nb, rcase,
+                           "%d batches in %d epochs, expected %d per epoch" % (total, case["epochs"], nb)):
+            return session
     if err is not None:
         # the property says training runs on every N >= 1 (incl. a single row with bases): an exception
         # is a failing input
@@ -410,14 +613,15 @@ def one_case(ctx, case, correspondence=True, session=None, reuse="other", first=
 
     # ---- oracle: the property relation on what the implementation did
     # how many epochs a run has is C12's subject; here only: training happened, and every epoch seen is checked
-    ctx.require("training ran at least one epoch", len(epochs) >= 1, rcase, "no epoch observed")
+    if not aborted:
+        ctx.require("training ran at least one epoch", len(epochs) >= 1, rcase, "no epoch observed")
     ctx.count("epochs_seen==requested" if len(epochs) == case["epochs"] else "epochs_seen!=requested")
     want_rows = Counter(rows)
     want_pairs = Counter(zip(rows, bases)) if bases else None
     zrows = set(r for r, b in zip(rows, bases) if all(c == "Z" for c in b)) if bases else None
     for e in epochs:
         bl = e["batches"]
-        tag = "epoch %d: " % e["ep"]
+        tag = "epoch %s: " % e["ep"]
         pos = [[tuple(r) for r in b[0]] for b in bl]
         neg = [[tuple(r) for r in b[1]] for b in bl]
         bb = [b[2] for b in bl]
@@ -587,11 +791,15 @@ def refbasis_cases(ctx, count):
         mism = Nb != N
         data = rng.integers(0, 2, size=(N, nv)).astype(float)
         p = float(rng.choice([0.2, 0.6, 0.9]))
-        bases = np.array([["Z" if rng.random() < p ** (1.0 / nv) else str(rng.choice(["X", "Y"])) for _ in range(nv)] for _ in range(Nb)])
+        alpha = ["X", "Y"] if t % 3 else ["X", "Y", "H", "K", "H", "K"]          # every third case: user letters as well
+        bases = np.array([["Z" if rng.random() < p ** (1.0 / nv) else str(rng.choice(alpha)) for _ in range(nv)] for _ in range(Nb)])
+        if t % 3 == 0 and not (t % 7 == 6) and rng.random() < 0.7:
+            bases[int(rng.integers(0, Nb))] = [str(rng.choice(["H", "K"]))] + ["Z"] * (nv - 1)   # a row rotated by a user letter only
         if t % 5 == 0:
             bases[:] = "Z"
         if t % 5 == 1 and not mism:
-            bases[:, 0] = "X"
+            bases[:, 0] = "X" if t % 2 else "H"
+        ctx.count("refbasis_letters:" + ("XYZ" if t % 3 else "XYZHK"))
         case = {"call": "extract_refbasis_samples", "data": data.tolist(), "bases": ["".join(r) for r in bases.tolist()]}
         ctx.case(case, nontrivial=(not mism) and 0 < int((bases == "Z").all(axis=1).sum()) < N)
         ctx.count("refbasis:" + ("shape_mismatch" if mism else "ok"))
@@ -672,44 +880,142 @@ def coq_crosscheck(ctx):
 
 
 # ----------------------------------------------------------------------------- driver
-FORMS = ["tensor_double", "numpy", "list", "tensor_float", "numpy_int", "list", "tensor_long", "numpy", "tensor_double"]
+FORMS = ["tensor_double", "numpy", "list", "numpy_reversed", "tensor_float", "numpy_int", "numpy_fortran", "list", "tensor_long",
+         "numpy_flipped", "numpy", "tensor_stride2", "tensor_double", "numpy_stride2", "loaded", "numpy_readonly", "tensor_t", "list_of_arrays"]
+VIEW_FORMS = ["numpy_reversed", "numpy_flipped", "numpy_fortran", "numpy_stride2", "numpy_readonly", "tensor_stride2", "tensor_t", "loaded",
+              "list_of_arrays"]
+BASES_FORMS = [None, "reversed", None, "fortran", None, "stride2", None, "readonly"]
 
 
 REUSE_MODES = ("same_both", "other", "same_data", "same_bases")
 
 
-def history_case(ctx, kind, N, pos_bs, form, reuse, epochs, negmode="default"):
+def decorate(case, cnt):
+    """Rotating call-form options of a generated case: integer arguments as numpy integers, callbacks omitted, bases as a view."""
+    if cnt % 5 == 2:
+        case["int_kind"] = INT_KINDS[(cnt // 5) % len(INT_KINDS)]
+    if cnt % 6 == 3:
+        case["no_cb"] = ["omitted", "empty_list", "omitted", "none"][(cnt // 6) % 4]
+    if case["bases"] is not None and BASES_FORMS[cnt % len(BASES_FORMS)] and case["form"] != "loaded":
+        case["bases_form"] = BASES_FORMS[cnt % len(BASES_FORMS)]
+    return case
+
+
+def other_content(ctx, c1, make):
+    """A case whose rows (with their bases) differ from c1's AS A MULTISET (so that rows of a previous run are recognised)."""
+    c2 = make()
+    for _ in range(12):
+        if Counter(zip(map(tuple, c2["rows"]), c2["bases"] or [None] * c2["N"])) != Counter(zip(map(tuple, c1["rows"]), c1["bases"] or [None] * c1["N"])):
+            break
+        c2 = make()
+    return c2
+
+
+def history_case(ctx, kind, N, pos_bs, form, reuse, epochs, negmode="default", cnt=None, letters="XYZ"):
     """fit called twice on ONE state.  reuse: which caller-side objects of the second call are the same
     objects as in the first call, refilled in place with the new content."""
     if kind == "positive" and reuse in ("same_data", "same_bases"):
         reuse = "same_both"
-    c1 = gen_case(ctx, kind, N, pos_bs, negmode, form, epochs)
+    c1 = gen_case(ctx, kind, N, pos_bs, negmode, form, epochs, letters=letters)
     N2 = N if reuse != "other" else max(1, N + int(ctx.rng.integers(-2, 3)))
     pos2 = pos_bs if ctx.rng.random() < 0.5 else int(ctx.rng.integers(1, N2 + 2))
-    for _ in range(8):
-        c2 = gen_case(ctx, kind, N2, pos2, str(ctx.rng.choice(["default", "equal", "diff"])), form, epochs)
-        if c2["rows"] != c1["rows"] or c2["bases"] != c1["bases"]:
-            break
+    c2 = other_content(ctx, c1, lambda: gen_case(ctx, kind, N2, pos2, str(ctx.rng.choice(["default", "equal", "diff"])), form, epochs, letters=letters))
     c2["nh"] = c1["nh"]
+    if cnt is not None:
+        decorate(c1, cnt); decorate(c2, cnt + 3)
+        if c1["form"] == "loaded" or reuse != "other":
+            c1.pop("bases_form", None); c2.pop("bases_form", None)
     session = one_case(ctx, c1)
     one_case(ctx, c2, session=session, reuse=reuse, first=c1)
 
 
+def abort_history(ctx, kind, N, pos_bs, form, hook, exc, same_n=True, second_no_cb=None, reuse="other", letters="XYZ"):
+    """A run aborted by an exception raised in the caller's callback (caught by the caller), then an ORDINARY fit on the same
+    state with other rows (of the same length, or another): the second run is judged as any fit - every epoch uses exactly
+    the rows of ITS data."""
+    c1 = gen_case(ctx, kind, N, pos_bs, "default", form, 3, letters=letters)
+    c1["abort"] = {"hook": hook, "epoch": 1 if hook != "on_epoch_end" else int(ctx.rng.integers(1, 3)), "exc": exc}
+    if hook == "no_reference_row":
+        if c1["bases"] is None:
+            c1["abort"]["hook"] = "optimizer_raises"
+        else:                                                  # no row to start the negative chains from: the library itself gives up
+            c1["bases"] = [b if b != "Z" * len(b) else "X" + b[1:] for b in c1["bases"]]
+    N2 = N if same_n else N + 1
+    c2 = other_content(ctx, c1, lambda: gen_case(ctx, kind, N2, pos_bs, str(ctx.rng.choice(["default", "diff"])), form, 2, letters=letters))
+    c2["nh"] = c1["nh"]
+    if second_no_cb:
+        c2["no_cb"] = second_no_cb
+    session = one_case(ctx, c1)
+    one_case(ctx, c2, session=session, reuse=reuse if same_n else "other", first=c1)
+
+
 def fixed_first(ctx, epochs):
-    """The regimes that always run first: two fits on one state, and large data sets."""
+    """The regimes that always run first: two fits on one state, aborted runs, call forms (integer types, data views,
+    no callbacks, user basis letters, loader) and large data sets."""
     plan = [("positive", "numpy", "same_both"), ("complex", "tensor_double", "same_both"), ("dm", "list", "same_data"),
             ("complex", "numpy", "same_bases"), ("positive", "tensor_float", "same_both"), ("positive", "list", "other"),
             ("dm", "numpy", "same_both"), ("complex", "numpy_int", "other")]
     for i, (kind, form, reuse) in enumerate(plan):
         history_case(ctx, kind, 4 + i % 3, 2 + i % 2, form, reuse, epochs)
+    # -- a run aborted by the caller's callback, then an ordinary run on other data (same length / other length)
+    for i, (kind, form, hook, exc, same_n, nocb, reuse) in enumerate([
+            ("positive", "numpy", "on_epoch_end", "KeyboardInterrupt", True, "omitted", "other"),
+            ("complex", "tensor_double", "on_epoch_end", "RuntimeError", True, None, "other"),
+            ("dm", "list", "on_batch_end", "KeyboardInterrupt", True, None, "other"),
+            ("positive", "tensor_float", "on_epoch_start", "RuntimeError", True, None, "same_both"),
+            ("complex", "numpy", "on_epoch_end", "KeyboardInterrupt", False, "empty_list", "other"),
+            ("dm", "numpy", "no_reference_row", "-", True, None, "other"),
+            ("positive", "list", "optimizer_raises", "RuntimeError", True, "none", "other")]):
+        abort_history(ctx, kind, 5 + i % 3, 2 + i % 2, form, hook, exc, same_n=same_n, second_no_cb=nocb, reuse=reuse)
+    # -- runs without callbacks (epochs cut by the known number of batches), N = m*b + r and N = m*b, every kind
+    i = 0
+    for kind in ("positive", "complex", "dm"):
+        for (N, b, nocb) in ((7, 2, "omitted"), (5, 3, "empty_list"), (6, 3, "omitted")):
+            c = gen_case(ctx, kind, N, b, ["default", "diff", "equal"][i % 3], FORMS[i % len(FORMS)], epochs)
+            c["no_cb"] = nocb
+            i += 1
+            one_case(ctx, c)
+    # -- user basis letters beyond X / Y / Z, defined in the state's unitary_dict: reference rows are exactly the all-Z rows
+    for i, (kind, letters) in enumerate([("complex", "XYZH"), ("dm", "XYZH"), ("complex", "ZHK"), ("dm", "XYZHK"), ("complex", "ZH")]):
+        c = gen_case(ctx, kind, 6 + i % 2, 3, ["diff", "default"][i % 2], FORMS[(3 * i) % len(FORMS)], epochs, letters=letters)
+        if i == 2:
+            c["no_cb"] = "omitted"
+        one_case(ctx, c)
+    history_case(ctx, "complex", 6, 3, "numpy", "same_bases", epochs, letters="XYZHK")
+    # -- every data form (numpy views with negative strides, Fortran order, every second row, read-only, tensor views, the
+    #    library's own loader) and bases as views
+    for i, form in enumerate(VIEW_FORMS + ["list", "numpy_int"]):
+        kind = ("complex", "positive", "dm")[i % 3]
+        c = gen_case(ctx, kind, 5 + i % 3, 2, ["default", "diff"][i % 2], form, epochs)
+        if c["bases"] is not None and form != "loaded":
+            c["bases_form"] = ["reversed", "fortran", "stride2", "readonly"][i % 4]
+        one_case(ctx, c)
+    # -- the loader on one-row and one-column files (shape kept), then fit
+    for kind, N, nv in (("complex", 1, 3), ("dm", 4, 1), ("positive", 1, 2), ("complex", 5, 1), ("positive", 3, 1), ("dm", 1, 1)):
+        one_case(ctx, gen_case(ctx, kind, N, 2, "default", "loaded", epochs, nv=nv))
+    # -- integer arguments as narrow numpy integers / 0-d arrays, with enough batches that a wrap of
+    #    num_batches * neg_batch_size (or of batch_start + pos_batch_size) would show
+    for i, (kind, N, b, neg, ik) in enumerate([
+            ("positive", 120, 2, 5, "uint8"),          # 60 * 5 = 300 > 255
+            ("complex", 90, 3, 7, "int8"),             # 30 * 7 = 210 > 127
+            ("dm", 300, 7, None, "uint8"),             # batch_start + pos_batch_size beyond 255; 43 * 7 = 301
+            ("positive", 80, 2, 7, "arr0d_uint8"),     # 40 * 7 = 280
+            ("complex", 6, 2, 4, "int32"), ("dm", 7, 3, 2, "int64"), ("positive", 9, 2, 5, "arr0d"), ("complex", 8, 3, 5, "uint16")]):
+        c = gen_case(ctx, kind, N, b, "default" if neg is None else "diff", FORMS[(5 * i) % len(FORMS)], 1 if N > 50 else epochs)
+        c.update(neg_arg=neg, int_kind=ik, k=1 if N > 50 else c["k"])
+        if i % 4 == 3:
+            c["no_cb"] = "omitted"
+        one_case(ctx, c)
     large = [large_case(ctx, "complex", 150001, 4096, None, "numpy"),
              large_case(ctx, "complex", 150001, None, None, "tensor_double", pos_default=True, stub=True),
-             large_case(ctx, "positive", 20011, 4096, 1000, "tensor_float")]
+             large_case(ctx, "positive", 20011, 4096, 1000, "tensor_float"),
+             dict(large_case(ctx, "positive", 150001, 4096, 2000, "numpy_fortran", stub=True), int_kind="uint16")]   # 37 * 2000 > 65535
     if ctx.thorough:
         large += [large_case(ctx, "dm", 20011, 4096, None, "numpy"),
                   large_case(ctx, "positive", 150001, None, None, "numpy", pos_default=True, stub=True),
                   large_case(ctx, "complex", 40000, 10000, 777, "numpy_int"),
-                  large_case(ctx, "dm", 150001, 4096, 64, "tensor_double", stub=True)]
+                  large_case(ctx, "dm", 150001, 4096, 64, "tensor_double", stub=True),
+                  dict(large_case(ctx, "complex", 150001, 4096, 2000, "numpy_reversed", stub=True), int_kind="uint16", no_cb="omitted")]
     for c in large:
         one_case(ctx, c)
 
@@ -729,14 +1035,25 @@ def run(ctx):
                         forms = ["tensor_double", "numpy", "list"] if ctx.thorough else [FORMS[cnt % len(FORMS)]]
                         if ctx.thorough and cnt % 3 == 0:
                             forms = ["tensor_float", "numpy_int", "list"] if cnt % 2 else ["tensor_long", "numpy", "tensor_double"]
+                        if ctx.thorough:
+                            forms = forms + [VIEW_FORMS[cnt % len(VIEW_FORMS)]]
                         cnt += 1
-                        for form in forms:
-                            case = gen_case(ctx, kind, N, pos_bs, negmode, form, epochs)
+                        for fi, form in enumerate(forms):
+                            letters = "XYZ" if (cnt + fi) % 4 != 1 else ["XYZH", "XYZHK", "ZH"][(cnt // 4) % 3]
+                            case = decorate(gen_case(ctx, kind, N, pos_bs, negmode, form, epochs, letters=letters), cnt + 7 * fi)
                             one_case(ctx, case)
-            # histories in the random stream: one two-fit history per kind and N
+            # histories in the random stream: one two-fit history per kind and N (the third kind: after an aborted run)
             for kind in ("positive", "complex", "dm"):
-                history_case(ctx, kind, N, int(ctx.rng.integers(1, N + 2)), FORMS[cnt % len(FORMS)],
-                             REUSE_MODES[cnt % len(REUSE_MODES)], epochs, negmode=str(ctx.rng.choice(["default", "diff"])))
+                if cnt % 3 == (N % 3):
+                    abort_history(ctx, kind, N, int(ctx.rng.integers(1, N + 2)), FORMS[cnt % len(FORMS)],
+                                  ["on_epoch_end", "on_batch_end", "on_epoch_start", "no_reference_row", "optimizer_raises"][cnt % 5],
+                                  ["KeyboardInterrupt", "RuntimeError"][cnt % 2],
+                                  same_n=bool(cnt % 4), second_no_cb=[None, "omitted"][(cnt // 3) % 2],
+                                  reuse=REUSE_MODES[cnt % len(REUSE_MODES)] if kind == "positive" else "other")
+                else:
+                    history_case(ctx, kind, N, int(ctx.rng.integers(1, N + 2)), FORMS[cnt % len(FORMS)],
+                                 REUSE_MODES[cnt % len(REUSE_MODES)], epochs, negmode=str(ctx.rng.choice(["default", "diff"])), cnt=cnt,
+                                 letters="XYZ" if cnt % 2 else "XYZH")
                 cnt += 1
     # documented defaults: pos_batch_size omitted (100 > N: one batch), neg_batch_size omitted
     for N in range(1, maxN + 1):
@@ -745,6 +1062,8 @@ def run(ctx):
                 case = gen_case(ctx, kind, N, 100, negmode, FORMS[cnt % len(FORMS)], epochs)
                 case["pos_default"] = True
                 case["neg_omitted"] = (negmode == "default")
+                if cnt % 3 == 0:
+                    case["no_cb"] = "omitted"                   # the plainest call: fit(data, epochs=.., k=.., lr=.. [, input_bases=..])
                 cnt += 1
                 ctx.count("pos_batch_size_defaulted")
                 one_case(ctx, case)
